@@ -31,6 +31,7 @@ type Opts struct {
 	DupAttrs       bool // an attribute name written twice in one list (the later value overrides the earlier)
 	VerbSpacing    bool // several blanks after a format verb, a blank before the closing brace
 	TrailingSpace  bool // blanks / tabs after `- statement` lines
+	HexVerb        bool // `%x n0` (the environments give n0 negative values too)
 	Trailers       bool // Go code after the closing brace of a template, on the same line
 	UnescBlocks    bool // `!= @render X()` WITH a block of arbitrary content (compile-level checks only: what the block then prints is not specified)
 	MultiLineFrags bool // Go fragments containing a newline (finding C07/multiline)
@@ -57,6 +58,10 @@ func (g *G) strFrag() string {
 		return "x"
 	}
 	// a `%` inside an expression (remainder operator, a verb inside a string literal) is not a format shorthand
+	if g.O.NonASCII && g.chance(6) {
+		// the first code point beyond the basic plane, and the last one inside it
+		return g.pick("f2(\"\U00010000\", s0)", "f2(\"\uffff\", s0)")
+	}
 	return g.pick("s0", "s1", `"lit"`, "s0 + s1", `f2("é", s0)`, `f2("50%off now", s0)`, `f2(s1, d3[n0%3 + 1])`)
 }
 // fmtFrag: a string fragment for use after a format verb (never the loop variable: the model binds only `x`)
@@ -96,6 +101,9 @@ func (g *G) textParts() []Part {
 			switch g.R.Intn(4) {
 			case 0:
 				ps = append(ps, Part{Expr: "n0", Verb: "%d"})
+				if g.O.HexVerb && g.chance(2) {
+					ps[len(ps)-1].Verb = g.pick("%x", "%X", "%o")
+				}
 			case 1:
 				// a variable named like the verb letter
 				if g.chance(2) {
@@ -165,7 +173,9 @@ func (g *G) attrs(n *Node) {
 		case 2:
 			a.Kind = ADynamic
 			a.Expr, a.Verb = "n0", "%d"
-			if g.chance(3) {
+			if g.O.HexVerb && g.chance(2) {
+				a.Verb = g.pick("%x", "%X", "%o")
+			} else if g.chance(3) {
 				a.Expr, a.Verb = g.pick("d", `f2("é", s0)`), "%d"
 				if a.Expr != "d" {
 					a.Verb = "%s"
@@ -269,6 +279,9 @@ func (g *G) inline() *Node {
 			return &Node{Kind: KScript, Expr: g.fmtFrag(), Verb: g.pick("%s", "%q")}
 		case 1:
 			return &Node{Kind: KScript, Expr: "v", Verb: "%v"}
+		}
+		if g.O.HexVerb && g.chance(2) {
+			return &Node{Kind: KScript, Expr: "n0", Verb: g.pick("%x", "%X", "%o")}
 		}
 		return &Node{Kind: KScript, Expr: "n0", Verb: "%d"}
 	}
@@ -611,6 +624,13 @@ func GenFile(r *rand.Rand, o Opts, nLayouts, nPages int) *File {
 				{Kind: KRender, Callee: callee, Kids: []*Node{{Kind: KRender, Callee: callee, Kids: []*Node{p("before"), fail()}}}},
 			}})
 		}
+	}
+	if o.HexVerb {
+		// every numeric verb once, as script, interpolation and attribute value (the environments make n0 negative too)
+		f.Templates = append(f.Templates, &Template{Name: "Hexes", Sig: Sig, Body: []*Node{
+			{Kind: KElem, Tag: "p", Attrs: []Attr{{Name: "data-mask", Kind: ADynamic, Expr: "n0", Verb: "%x"}}, Inline: &Node{Kind: KScript, Expr: "n0", Verb: "%x"}},
+			{Kind: KElem, Tag: "span", Inline: &Node{Kind: KText, Parts: []Part{{Static: "o "}, {Expr: "n0", Verb: "%o"}, {Static: " X "}, {Expr: "n0", Verb: "%X"}, {Static: " d "}, {Expr: "n0", Verb: "%d"}}}},
+		}})
 	}
 	if o.MultiLineFrags {
 		// declarations with one parameter per line (a fragment of ten lines)
